@@ -388,10 +388,68 @@ def checkC17 (_c : Case) (t : Transcript) : Option String := Id.run do
         return some s!"non-acquiring operation changed the caller's holds from {repr before} to {repr st.held}"
   return none
 
+/-- C06: replay the key-token specification over the statements and their observed outcomes:
+`ThreadKey::get` must return a key iff no token is alive (owned by the program, inside a guard
+or running call, or leaked), never inside a hold, and the final flag must agree. -/
+def checkC06 (c : Case) (t : Transcript) : Option String := Id.run do
+  if t.evs.any (fun e => e == .mark mkGotKey) then
+    return some "ThreadKey::get() returned a key while a guard or scoped closure was alive"
+  let segs := segments t.evs
+  let mut keys : Nat := 0
+  let mut flag : Bool := false
+  let mut i := 0
+  for s in c.prog do
+    let seg := segs.getD i []
+    i := i + 1
+    if seg.isEmpty then break
+    let out := segOutcome seg
+    match s with
+    | .get =>
+      if flag && out != mkOutWouldBlock then return some s!"statement {i}: get() returned a key although one is alive"
+      if !flag && out != mkOutOk then return some s!"statement {i}: get() failed although no key is alive"
+      if !flag then
+        keys := 1
+        flag := true
+    | .dropKey =>
+      if keys == 0 then
+        if out != mkOutNoKey then return some "harness desynchronised (dropkey)"
+      else
+        keys := 0
+        flag := false
+    | .forgetKey =>
+      if keys == 0 then
+        if out != mkOutNoKey then return some "harness desynchronised (forgetkey)"
+      else keys := 0
+    | .ses ses =>
+      if keys == 0 then
+        if out != mkOutNoKey then return some s!"statement {i}: a session ran without a key"
+      else
+        let guardApi := ses.api == .lock || ses.api == .tryLock
+        if out == mkOutWouldBlock then pure ()            -- key handed back / still lent
+        else if guardApi then
+          if out == mkOutPanic then
+            keys := 0
+            flag := false
+          else match ses.exit with
+            | .unlock => pure ()
+            | .forget => keys := 0
+            | _ =>
+              keys := 0
+              flag := false
+        else if ses.key == .owned then
+          keys := 0
+          flag := false
+    | _ => pure ()
+  if t.terminal == "done" then
+    if (t.key == "K") != flag then
+      return some s!"final key flag is {t.key}, the specification says {if flag then "K" else "-"}"
+  return none
+
 def checkProp (prop : String) (c : Case) (t : Transcript) : Option String :=
   match prop with
   | "C03" | "C05" => checkHold c t
   | "C04" => (checkC04 c t).orElse fun _ => checkHold c t
+  | "C06" => checkC06 c t
   | "C08" => checkC08 c t
   | "C09" => checkC09 c t
   | "C11" => (checkC11 c t).orElse fun _ => checkHold c t
